@@ -896,7 +896,7 @@ impl gen::CELVisitorCompat<'_> for Parser {
     fn visit_Bytes(&mut self, ctx: &BytesContext<'_>) -> Self::Return {
         let token = ctx.tok.as_deref().expect("Has to have bytes!");
         let string = ctx.get_text();
-        match parse::parse_bytes(&string[2..string.len() - 1]) {
+        match parse::parse_bytes_literal(&string) {
             Ok(bytes) => self
                 .helper
                 .next_expr(token, Expr::Literal(Val::Bytes(bytes))),
